@@ -145,7 +145,11 @@ fn check_line(line: &str, rep: &mut Report, replay: &dyn Fn() -> Vec<String>) {
     }
 }
 
-const ALPHABET: [&str; 24] = [" ", "\\", "n", "r", "\r", "\n", "\0", ")", "(", "=", "é", "否", "😀", "\u{FFFD}", "A", "g", "0", "f", "+", "-", "_", "\t", "x", "."];
+const ALPHABET: [&str; 32] = [
+    " ", "\\", "n", "r", "\r", "\n", "\0", ")", "(", "=", "é", "否", "😀", "\u{FFFD}", "A", "g", "0", "f", "+", "-", "_", "\t", "x", ".",
+    // line and paragraph separators other than CR/LF, other Unicode white space, a control character
+    "\u{85}", "\u{2028}", "\u{2029}", "\u{A0}", "\u{3000}", "\u{FEFF}", "\u{B}", "\u{1}",
+];
 
 fn base_lines(rng: &mut Rng) -> Vec<String> {
     let h = hex(&rng.array32());
@@ -283,7 +287,11 @@ fn random_line(rng: &mut Rng) -> String {
 // Round trip + injectivity over hostile path byte strings
 // ------------------------------------------------------------------------------------------------
 fn hostile_path(rng: &mut Rng) -> Vec<u8> {
-    const PIECES: [&[u8]; 22] = [b" ", b"  ", b") = ", b"BLAKE3 (", b"\\", b"\\\\", b"\r", b"\n", b"\\n", b"\\r", b"a", b"b", b"/", b"dir", b"\xC3\xA9", b"\xE5\x90\xA6", b"\xF0\x9F\x98\x80", b"\xFF", b"\xC3", b"\xEF\xBF\xBD", b"=", b"(x)"];
+    const PIECES: [&[u8]; 30] = [
+        b" ", b"  ", b") = ", b"BLAKE3 (", b"\\", b"\\\\", b"\r", b"\n", b"\\n", b"\\r", b"a", b"b", b"/", b"dir", b"\xC3\xA9", b"\xE5\x90\xA6", b"\xF0\x9F\x98\x80", b"\xFF", b"\xC3", b"\xEF\xBF\xBD", b"=", b"(x)",
+        // U+0085, U+2028, U+2029, U+00A0, U+3000, U+FEFF, VT, SOH (anywhere, in particular last)
+        b"\xC2\x85", b"\xE2\x80\xA8", b"\xE2\x80\xA9", b"\xC2\xA0", b"\xE3\x80\x80", b"\xEF\xBB\xBF", b"\x0B", b"\x01",
+    ];
     let n = 1 + rng.usize_below(8);
     let mut v = Vec::new();
     for _ in 0..n {
